@@ -174,4 +174,226 @@ theorem parse_exact_fixed (neg : Bool) (d1 : Nat) (xs ys : List Nat) (h1 : isNon
     simpa using this
   exact parseDouble_real t _ neg (Nat.lt_of_le_of_lt (nearestMag_le_inf _ _) (by decide)) hstr
 
+theorem margin32_scale (n d c : Nat) (hn : 0 < n) (hd : 0 < d) (hc : 0 < c) : Margin32 (n * c) (d * c) ↔ Margin32 n d := by
+  unfold Margin32
+  rw [roundPair_scale n d c hn hd hc]
+  exact MarginPair_scale _ _ c hc
+
+/-- the reference reader's fraction `(num, den)` for mantissa `v`, `f` fraction digits and exponent
+`±k`, and this area's normalised `(N, D)` (`v·10^X / 1` or `v / 10^X`) differ by a common factor -/
+theorem frac_link (v f k : Nat) (eneg : Bool) :
+    ∃ c, 0 < c ∧
+      (if eneg then v else v * 10 ^ k) =
+        (if (netExp false k eneg f).2 then v else v * 10 ^ (netExp false k eneg f).1) * c ∧
+      (if eneg then 10 ^ f * 10 ^ k else 10 ^ f) =
+        (if (netExp false k eneg f).2 then 10 ^ (netExp false k eneg f).1 else 1) * c := by
+  unfold netExp
+  cases eneg with
+  | false =>
+    simp only [Bool.false_and, Bool.false_eq_true, if_false]
+    by_cases h : k ≥ f
+    · simp only [h, if_true, Bool.false_eq_true, if_false]
+      refine ⟨10 ^ f, Nat.pow_pos (by decide), ?_, by simp⟩
+      rw [Nat.mul_assoc, ← Nat.pow_add]; congr 2; omega
+    · simp only [h, if_false, if_true]
+      refine ⟨10 ^ k, Nat.pow_pos (by decide), rfl, ?_⟩
+      rw [← Nat.pow_add]; congr 1; omega
+  | true =>
+    by_cases hk : k = 0
+    · subst hk
+      simp only [Bool.true_and, Bool.false_or, ne_eq, not_true_eq_false, decide_false, Bool.false_eq_true, if_false,
+        if_true, Nat.pow_zero, Nat.mul_one, ge_iff_le, Nat.le_zero_eq]
+      by_cases hf : f = 0
+      · subst hf; simp
+      · simp only [hf, if_false, if_true]
+        exact ⟨1, by decide, by simp, by simp⟩
+    · simp only [Bool.true_and, Bool.false_or, ne_eq, hk, not_false_eq_true, decide_true, if_true]
+      refine ⟨1, by decide, by simp, ?_⟩
+      rw [Nat.mul_one, ← Nat.pow_add]; congr 1; omega
+
+/-- common tail of the real shapes: from `strToNum t = realResult …` to `parseDouble t = readBits64 t` -/
+theorem parse_exact_of_realResult (t : List Nat) (neg : Bool) (v n X : Nat) (FLAG : Bool) (num den : Nat)
+    (hstr : strToNum t 0 t.length = realResult neg v n X FLAG t.length)
+    (href : FmtSpec.readBits64 t = some ((if neg then 2 ^ 63 else 0) + nearestMag num den))
+    (hv0 : 0 < v) (hv : v < 2 ^ 64) (hn19 : n ≤ 19) (hX : X < 2 ^ 31)
+    (hlink : ∃ c, 0 < c ∧ num = (if FLAG then v else v * 10 ^ X) * c ∧ den = (if FLAG then 10 ^ X else 1) * c)
+    (hrange : if FLAG then X ≤ n + 324 else X + n ≤ 309)
+    (hcond : FLAG = true → 2 ^ (X / 27 + 1) ≤ v)
+    (hm : Margin32 num den) :
+    parseDouble t = FmtSpec.readBits64 t := by
+  obtain ⟨c, hc, hnum, hden⟩ := hlink
+  have hNpos : 0 < (if FLAG then v else v * 10 ^ X) := by
+    split
+    · exact hv0
+    · exact Nat.mul_pos hv0 (Nat.pow_pos (by decide))
+  have hDpos : 0 < (if FLAG then 10 ^ X else 1) := by
+    split
+    · exact Nat.pow_pos (by decide)
+    · decide
+  have hmag : nearestMag num den = (if FLAG then nearestMag v (10 ^ X) else nearestMag (v * 10 ^ X) 1) := by
+    rw [hnum, hden, nearestMag_scale _ _ c hNpos hDpos hc]
+    cases FLAG <;> simp
+  have hm' : if FLAG then MarginPair (roundPair v (10 ^ X)).1 (roundPair v (10 ^ X)).2
+      else MarginPair (roundPair (v * 10 ^ X) 1).1 (roundPair (v * 10 ^ X) 1).2 := by
+    rw [hnum, hden, margin32_scale _ _ c hNpos hDpos hc] at hm
+    cases FLAG
+    · simp only [Bool.false_eq_true, if_false] at hm ⊢; exact hm
+    · simp only [if_true] at hm ⊢; exact hm
+  rw [href, hmag]
+  have hres := realResult_exact neg v n X FLAG t.length hv0 hv hn19 hX hrange hcond hm'
+  rw [← hstr] at hres
+  exact parseDouble_real t _ neg (by
+    split
+    · exact Nat.lt_of_le_of_lt (nearestMag_le_inf _ _) (by decide)
+    · exact Nat.lt_of_le_of_lt (nearestMag_le_inf _ _) (by decide)) hres
+
+/-- the parser on a scientific text `d[.ddd]e±kk`: the mantissa scan, then the exponent -/
+theorem strToNum_sci_eq (neg : Bool) (d1 : Nat) (ys : List Nat) (eneg : Bool) (ks : List Nat)
+    (h1 : isNonZeroDigit d1 = true) (hys : AllDigits ys) (hy48 : ys ≠ [48]) (hlen : ys.length ≤ 16)
+    (hks : AllDigits ks) (hk0 : ks ≠ []) (hk8 : ks.length ≤ 8) (t : List Nat)
+    (ht : t = sgOf neg ++ ([d1] ++ (if ys = [] then [] else 46 :: ys) ++ 101 :: (if eneg then 45 else 43) :: ks)) :
+    strToNum t 0 t.length =
+      realResult neg (decVal (d1 :: ys)) (1 + ys.length) (netExp false (decVal ks) eneg ys.length).1
+        (netExp false (decVal ks) eneg ys.length).2 t.length := by
+  have hdig := isNonZeroDigit_isDigit h1
+  have hf : d1 ≠ 45 ∧ d1 ≠ 43 := by simp [isDigit] at hdig; omega
+  have hsl : (sgOf neg).length ≤ 1 := by rw [sgOf_len]; cases neg <;> simp [b2n]
+  have hklen : 0 < ks.length := by cases ks with
+    | nil => exact absurd rfl hk0
+    | cons a b => simp
+  by_cases hy : ys = []
+  · subst hy
+    simp only [if_true, List.append_nil, List.length_nil, Nat.add_zero] at ht ⊢
+    cases eneg with
+    | false =>
+      -- d e + ks
+      have ht' : t = sgOf neg ++ (d1 :: [] ++ [101] ++ [43] ++ ks) := by rw [ht]; simp
+      have htl : t.length = (sgOf neg).length + 1 + 0 + 1 + 1 + ks.length := by rw [ht']; simp; omega
+      have he : t.length < 2 ^ 32 := by omega
+      have hu : unitsAt t t.length 0 (sgOf neg ++ (d1 :: [] ++ [101] ++ [43] ++ ks)) := by rw [← ht']; exact unitsAt_self t
+      have hu' := (unitsAt_append t t.length (sgOf neg) _ 0).1 hu
+      have hu1 : unitsAt t t.length 0 (sgOf neg ++ [d1]) :=
+        (unitsAt_append t t.length (sgOf neg) [d1] 0).2 ⟨hu'.1, hu'.2.1, trivial⟩
+      rw [strToNum_after_sign t 0 t.length (sgOf neg) d1 (sgOf_cases neg) hu1 hf, sgOf_dec]
+      rw [afterSign_exp_pos t t.length neg (0 + (sgOf neg).length) d1 [] 101 [43] ks he h1 (by intro y hy; simp at hy)
+        (by simp) (Or.inl rfl) (Or.inr rfl) hks hk0 hk8 hu'.2 (Or.inl (by simp; omega))]
+      have hne : netExp false (decVal ks) false 0 = (decVal ks, false) := by unfold netExp; simp
+      rw [hne]
+      simp only [List.length_nil, List.length_singleton]
+      congr 1 <;> omega
+    | true =>
+      have ht' : t = sgOf neg ++ (d1 :: [] ++ [101] ++ [45] ++ ks) := by rw [ht]; simp
+      have htl : t.length = (sgOf neg).length + 1 + 0 + 1 + 1 + ks.length := by rw [ht']; simp; omega
+      have he : t.length < 2 ^ 32 := by omega
+      have hu : unitsAt t t.length 0 (sgOf neg ++ (d1 :: [] ++ [101] ++ [45] ++ ks)) := by rw [← ht']; exact unitsAt_self t
+      have hu' := (unitsAt_append t t.length (sgOf neg) _ 0).1 hu
+      have hu1 : unitsAt t t.length 0 (sgOf neg ++ [d1]) :=
+        (unitsAt_append t t.length (sgOf neg) [d1] 0).2 ⟨hu'.1, hu'.2.1, trivial⟩
+      rw [strToNum_after_sign t 0 t.length (sgOf neg) d1 (sgOf_cases neg) hu1 hf, sgOf_dec]
+      rw [afterSign_exp_neg t t.length neg (0 + (sgOf neg).length) d1 [] 101 ks he h1 (by intro y hy; simp at hy)
+        (by simp) (Or.inl rfl) hks hk0 hk8 hu'.2 (Or.inl (by simp; omega))]
+      have hne : netExp false (decVal ks) true 0 = (decVal ks, decide (decVal ks ≠ 0)) := by
+        unfold netExp
+        by_cases hk : decVal ks = 0
+        · simp [hk]
+        · simp [hk]
+      rw [hne]
+      simp only [List.length_nil]
+      congr 1 <;> omega
+  · -- d . ys e ± ks
+    have hylen : 0 < ys.length := by cases ys with
+      | nil => exact absurd rfl hy
+      | cons a b => simp
+    simp only [hy, if_false] at ht
+    have ht' : t = sgOf neg ++ (d1 :: [] ++ [46] ++ ys) ++ [101] ++ ([if eneg then 45 else 43] ++ ks) := by
+      rw [ht]; simp
+    have htl : t.length = (sgOf neg).length + 1 + 0 + 1 + ys.length + 1 + 1 + ks.length := by rw [ht']; simp; omega
+    have he : t.length < 2 ^ 32 := by omega
+    have hu : unitsAt t t.length 0 (sgOf neg ++ (d1 :: [] ++ [46] ++ ys) ++ [101] ++ ([if eneg then 45 else 43] ++ ks)) := by
+      rw [← ht']; exact unitsAt_self t
+    have hA := (unitsAt_append t t.length (sgOf neg ++ (d1 :: [] ++ [46] ++ ys) ++ [101]) _ 0).1 hu
+    have hB := (unitsAt_append t t.length (sgOf neg ++ (d1 :: [] ++ [46] ++ ys)) [101] 0).1 hA.1
+    have hu' := (unitsAt_append t t.length (sgOf neg) (d1 :: [] ++ [46] ++ ys) 0).1 hB.1
+    have hu1 : unitsAt t t.length 0 (sgOf neg ++ [d1]) :=
+      (unitsAt_append t t.length (sgOf neg) [d1] 0).2 ⟨hu'.1, hu'.2.1, trivial⟩
+    have hQm : rd t t.length (0 + (sgOf neg).length + 1 + 0 + 1 + ys.length) = some 101 := by
+      have := hB.2.1
+      simp only [List.length_append, List.length_cons, List.length_nil] at this
+      rw [show 0 + (sgOf neg).length + 1 + 0 + 1 + ys.length = 0 + ((sgOf neg).length + (0 + 1 + (0 + 1) + ys.length)) by omega]
+      exact this
+    have hexpu : unitsAt t t.length (0 + (sgOf neg).length + 1 + 0 + 1 + ys.length + 1) ([if eneg then 45 else 43] ++ ks) := by
+      have := hA.2
+      simp only [List.length_append, List.length_cons, List.length_nil] at this
+      rw [show 0 + (sgOf neg).length + 1 + 0 + 1 + ys.length + 1 =
+        0 + ((sgOf neg).length + (0 + 1 + (0 + 1) + ys.length) + (0 + 1)) by omega]
+      exact this
+    rw [strToNum_after_sign t 0 t.length (sgOf neg) d1 (sgOf_cases neg) hu1 hf, sgOf_dec]
+    rw [afterSign_frac t t.length neg (0 + (sgOf neg).length) d1 [] ys he h1 (by intro y hy; simp at hy) hys hy hy48
+      (by simp; omega) hu'.2 (Or.inr ⟨101, by simpa using hQm, by decide, by decide⟩)]
+    have hes : [if eneg then 45 else 43] = [] ∨ [if eneg then 45 else 43] = [43] ∨ [if eneg then 45 else 43] = [45] := by
+      cases eneg <;> simp
+    have hdec : decide ([if eneg then 45 else 43] = [45]) = eneg := by cases eneg <;> simp
+    have hfin : 0 + (sgOf neg).length + 1 + ([] : List Nat).length + 1 + ys.length + 1 + [if eneg then 45 else 43].length + ks.length = t.length := by
+      simp; omega
+    rw [finishReal_exp t t.length neg _ _ _ _ false true _ 101 [if eneg then 45 else 43] ks
+      (by simpa using hQm) (Or.inl rfl) (by omega) he hes hks hk0 hk8 (by simpa using hexpu)
+      (Or.inl (by simp; omega)) (1 + ys.length) ys.length
+      (by simp only [b2n, Bool.not_false, Bool.and_self, if_true, List.length_nil]
+          rw [sub32_sub32 _ _ 1 (by omega) (by omega)]; omega)
+      (by simp only [Bool.false_eq_true, if_false, if_true, List.length_nil]
+          rw [sub32_sub32 _ _ 1 (by omega) (by omega)]; omega)
+      (by omega)]
+    rw [hdec]
+    congr 1
+
+/-- **`%.17g` scientific notation** (`d[.ddd]e±kk`): in range, under the margin (and the mantissa
+condition for a negative net exponent), the parser returns the correctly rounded double. -/
+theorem parse_exact_sci (neg : Bool) (d1 : Nat) (ys : List Nat) (eneg : Bool) (ks : List Nat)
+    (h1 : isNonZeroDigit d1 = true) (hys : AllDigits ys) (hy48 : ys ≠ [48]) (hlen : ys.length ≤ 16)
+    (hks : AllDigits ks) (hk0 : ks ≠ []) (hk8 : ks.length ≤ 8)
+    (hm : Margin32 (if eneg then decVal (d1 :: ys) else decVal (d1 :: ys) * 10 ^ decVal ks)
+                   (if eneg then 10 ^ ys.length * 10 ^ decVal ks else 10 ^ ys.length))
+    (hrange : if (netExp false (decVal ks) eneg ys.length).2 then
+                (netExp false (decVal ks) eneg ys.length).1 ≤ 1 + ys.length + 324
+              else (netExp false (decVal ks) eneg ys.length).1 + (1 + ys.length) ≤ 309)
+    (hcond : (netExp false (decVal ks) eneg ys.length).2 = true →
+      2 ^ ((netExp false (decVal ks) eneg ys.length).1 / 27 + 1) ≤ decVal (d1 :: ys)) :
+    parseDouble (FmtSpec.signed neg ([d1] ++ (if ys = [] then [] else 46 :: ys) ++ 101 :: (if eneg then 45 else 43) :: ks)) =
+      FmtSpec.readBits64 (FmtSpec.signed neg ([d1] ++ (if ys = [] then [] else 46 :: ys) ++ 101 :: (if eneg then 45 else 43) :: ks)) := by
+  have hdig := isNonZeroDigit_isDigit h1
+  have hd1r : 48 ≤ d1 ∧ d1 ≤ 57 := by simp [isDigit] at hdig; omega
+  have hall : AllDigits (d1 :: ys) := by
+    intro y hy
+    rcases List.mem_cons.1 hy with h | h
+    · subst h; exact hdig
+    · exact hys y h
+  have hrc := readCore_exp neg [d1] ys ks eneg (by simp) (allDigits_fmt (fun y hy => by simp at hy; subst hy; exact hdig))
+    (allDigits_fmt hys) hk0 (allDigits_fmt hks)
+  have hrc' : readCore neg ([d1] ++ (if ys = [] then [] else 46 :: ys) ++ 101 :: (if eneg then 45 else 43) :: ks) =
+      some (neg, (if eneg then decVal (d1 :: ys) else decVal (d1 :: ys) * 10 ^ decVal ks),
+        (if eneg then 10 ^ ys.length * 10 ^ decVal ks else 10 ^ ys.length)) := by
+    rw [hrc]
+    cases eneg <;> simp [digitsValue_eq]
+  have hden : 0 < (if eneg then 10 ^ ys.length * 10 ^ decVal ks else 10 ^ ys.length) := by
+    split
+    · exact Nat.mul_pos (Nat.pow_pos (by decide)) (Nat.pow_pos (by decide))
+    · exact Nat.pow_pos (by decide)
+  have href := readBits64_signed neg _ d1 ((if ys = [] then [] else 46 :: ys) ++ 101 :: (if eneg then 45 else 43) :: ks)
+    (by simp) hd1r _ _ hden hrc'
+  have hv0 : 0 < decVal (d1 :: ys) := Nat.lt_of_lt_of_le (Nat.pow_pos (by decide)) (decVal_ge d1 ys h1)
+  have hvhi := decVal_lt_pow (d1 :: ys) hall
+  have hv64 : decVal (d1 :: ys) < 2 ^ 64 :=
+    Nat.lt_of_lt_of_le hvhi (Nat.le_trans (Nat.pow_le_pow_right (by decide) (by simp; omega)) (by decide : (10 : Nat) ^ 19 ≤ 2 ^ 64))
+  have hk : decVal ks < 10 ^ 8 := Nat.lt_of_lt_of_le (decVal_lt_pow ks hks) (Nat.pow_le_pow_right (by decide) hk8)
+  have hX : (netExp false (decVal ks) eneg ys.length).1 < 2 ^ 31 := by
+    unfold netExp
+    split
+    · simp; omega
+    · split <;> simp <;> omega
+  rw [signed_eq] at href ⊢
+  generalize ht : sgOf neg ++ ([d1] ++ (if ys = [] then [] else 46 :: ys) ++ 101 :: (if eneg then 45 else 43) :: ks) = t at *
+  have hstr := strToNum_sci_eq neg d1 ys eneg ks h1 hys hy48 hlen hks hk0 hk8 t ht.symm
+  exact parse_exact_of_realResult t neg (decVal (d1 :: ys)) (1 + ys.length) _ _ _ _ hstr href hv0 hv64 (by omega) hX
+    (frac_link (decVal (d1 :: ys)) ys.length (decVal ks) eneg) hrange hcond hm
+
 end Qentem.Props.C11P
